@@ -13,6 +13,10 @@ def validate(pid, cases, M, name="rel", workers=None, timeout=3000, chunk=20000)
     """cases: [{"n", "a": [gate records], "bs": [{"b": [...], "rel", "perm"}]}]
     -> (verdicts {(tid0, s0): clause}, emitted {tid0: ring matrix}, stats).  tid0/s0 are 0-based."""
     verdicts, emitted = {}, {}
+    for c in cases:                      # every record field must be present for TLC
+        c.setdefault("cs", [])
+        for o in c["bs"]:
+            o.setdefault("perm", [])
     stats = {"generated": 0, "distinct": 0, "wall_s": 0.0, "runs": 0}
     for off in range(0, len(cases), chunk):
         part = cases[off:off + chunk]
